@@ -472,11 +472,16 @@ class DestHandler:
         ):
             try:
                 # The file names are byte strings on the wire and decoded on access.
-                _ = (packet.source_file_name, packet.dest_file_name)  # type: ignore
+                file_names = (packet.source_file_name, packet.dest_file_name)  # type: ignore
             except UnicodeDecodeError as e:
                 raise PduIgnoredForDest(
                     PduIgnoredForDestReason.METADATA_FILE_NAME_NOT_DECODABLE, packet
                 ) from e
+            if any(name is not None and "\0" in name for name in file_names):
+                # A NUL byte can not be part of a path (the filestore would raise a ValueError).
+                raise PduIgnoredForDest(
+                    PduIgnoredForDestReason.METADATA_FILE_NAME_NOT_DECODABLE, packet
+                )
 
     def get_next_packet(self) -> PduHolder | None:
         """Retrieve the next packet which should be sent to the remote CFDP source entity."""
